@@ -415,9 +415,9 @@ OnQuiescent(mon, ev) ==
                    B(A.startOut = "ok" /\ (A.stopRet \/ A.userStrong = 0 \/ A.killArmed) /\ A.nestOp = 0
                      /\ ~\E o \in pend : OpOf(mon, o).own = a,
                      "C07", "actor still running although stopped, killed or unreferenced") : a \in unj}
-      b4 == UNION {B(mon.dd /\ Has(mon.act, OpOf(mon, o).own) /\ OpOf(mon, o).kind \in AskKindsM
-                     /\ ~ActOf(mon, OpOf(mon, o).own).joined,
-                     "C14", "actor left waiting in an ask at quiescence") : o \in pend}
+      \* an ask cycle must have been refused by a panic, so none can be in place when nothing moves
+      b4 == B(mon.dd /\ \E a \in DOMAIN mon.act : Reaches(mon, a, a, Cardinality(DOMAIN mon.act) + 1),
+              "C14", "a cycle of unanswered asks is in place at quiescence")
       b5 == B(mon.dd /\ ev.wf # <<>> /\ ~\E o \in pend : Has(mon.act, OpOf(mon, o).own) /\ OpOf(mon, o).kind \in AskKindsM,
               "C15", "wait-for graph not empty although no ask is in flight")
       b6 == UNION {B(mon.act[a].expectRun /\ ~mon.act[a].joined, "C08", "on_run not polled again after Ok(true)")
